@@ -988,13 +988,19 @@ fn list_prefixes(cfg: &Cfg) -> Vec<(Cfg, usize)> {
             for k in cuts(chunks.len()) {
                 out.push((Cfg::Sdes { chunks: chunks[..k].to_vec(), padding: 0 }, 0));
             }
-            if let [only] = &chunks[..] {
-                for k in cuts(only.items.len()) {
-                    let items = only.items[..k].to_vec();
-                    // bytes of the shorter image after its last item: terminator + fill
-                    let used: usize = 8 + items.iter().map(|i| 2 + i.value.len() + if i.type_ == 8 { 1 + i.prefix.len() } else { 0 }).sum::<usize>();
+            // items of the last chunk (whatever precedes it)
+            if let Some((last, before)) = chunks.split_last() {
+                let item_size = |i: &Item| 2 + i.value.len() + if i.type_ == 8 { 1 + i.prefix.len() } else { 0 };
+                let chunk_len = |c: &Chunk| (4 + c.items.iter().map(item_size).sum::<usize>() + 1 + 3) / 4 * 4;
+                let head: usize = 4 + before.iter().map(chunk_len).sum::<usize>();
+                for k in cuts(last.items.len()) {
+                    let items = last.items[..k].to_vec();
+                    // bytes of the shorter image after its last item: terminator + fill of the last chunk
+                    let used: usize = head + 4 + items.iter().map(item_size).sum::<usize>();
                     let total = (used + 1 + 3) / 4 * 4;
-                    out.push((Cfg::Sdes { chunks: vec![Chunk { ssrc: only.ssrc, items }], padding: 0 }, total - used));
+                    let mut cs = before.to_vec();
+                    cs.push(Chunk { ssrc: last.ssrc, items });
+                    out.push((Cfg::Sdes { chunks: cs, padding: 0 }, total - used));
                 }
             }
         }
